@@ -418,6 +418,8 @@ def generate(spec):
         lb.isoforms = [(lb.gid + ".t1", [0, 1])]
         long_genes = [l1, l2, lb]
         genes.append(long_genes)
+        if s["long_locus"] >= 3:
+            _plant_sites(chroms[-1][1], [lb.exons[1], (lb.exons[1][1] + 330, lb.exons[1][1] + 480)], "+", canonical=True)
     pile_gene = None
     if s["pile"]:
         rs = random.Random("%d/seq/chrP" % s["seed"])
@@ -685,6 +687,16 @@ def generate(spec):
                 blocks = [(lb.exons[0][0] + 480 + 9 * k, lb.exons[0][1]), lb.exons[1]]
                 reads.append({"id": "r%04d" % rid, "src": lb.isoforms[0][0], "gene": lb.gid, "kind": "valley_gene_right_of_split",
                               "records": [mk_record("chrL", blocks, "+", bool(s["polya"]))]})
+            if s["long_locus"] >= 3:
+                # variant 3: an unannotated isoform of the valley gene, seen in the second region only, with an extra exon beyond
+                # the annotated end of the gene (the gene record is written when the first region is dumped)
+                e3 = (lb.exons[1][1] + 330, lb.exons[1][1] + 480)
+                lb.novel_downstream = e3
+                for k in range(max(4, s["novel_cov"])):
+                    rid += 1
+                    blocks = [(lb.exons[0][0] + 500 + 7 * k, lb.exons[0][1]), lb.exons[1], e3]
+                    reads.append({"id": "r%04d" % rid, "src": "novel:%s:downstream" % lb.gid, "gene": lb.gid, "kind": "valley_gene_novel_downstream",
+                                  "records": [mk_record("chrL", blocks, "+", bool(s["polya"]))]})
     if pile_gene is not None:
         extra = []
         for k in range(3):
